@@ -431,3 +431,164 @@ Example C17_witness_rounds :
     [w_fail_then_ok; [(false, PubError); (false, PubError)]; [(false, PubAccept)]]
   = (Msg 2 3 (Some [(w_rk, w_itoa 43)]), 2%nat).
 Proof. exact rounds_witness. Qed.
+
+(** * Round "proofs 2": the composed system, the real wire format *)
+From WM Require Import Relay.Consumer Relay.ConsumerProofs Relay.ConsumerWitness Relay.JsonCodec Relay.JsonCodecProofs.
+From WM Require Value.Json.
+
+Section C17_composed.
+  Variable dec : N -> option envelope.
+  Variable atoi : N -> option Z.
+  Variable itoa : Z -> N.
+  Variable rk : N.
+  Variable c : comp.
+  Variable src : N.
+  Variable msg_of : Sub.pubid -> msg.
+  Variable beh : Sub.cid -> attempt.
+
+  (** the composed system (Relay/Consumer.v): GoChannel Layer A where the ONLY way a copy is settled
+      is [CHandle k] — the Router running the relay's handler once on received copy k and settling it
+      with the verdict of C02's [handle].  Every composed run is a Layer A run (so every Layer A
+      theorem — one in flight, no panic, teardown — holds for it) *)
+  Theorem C17_composed_is_layer_a_run : forall (ls : list clabel) (cs : cstate),
+    c_sub (crun dec atoi itoa rk c src msg_of beh cs ls)
+    = Sub.srun (c_sub cs) (cproj dec atoi itoa rk c src msg_of beh cs ls).
+  Proof. exact (crun_is_srun dec atoi itoa rk c src msg_of beh). Qed.
+
+  (** what was a hypothesis of the over-GoChannel theorems is an invariant of the composed system *)
+  Theorem C17_composed_relay_consumer : forall (cap0 : nat) (fx : bool) (ls : list clabel),
+    relay_consumer dec atoi itoa rk c src msg_of beh
+      (c_sub (crun dec atoi itoa rk c src msg_of beh (cinit cap0 fx) ls)).
+  Proof. exact (composed_relay_consumer dec atoi itoa rk c src msg_of beh). Qed.
+
+  (** no double forwarding through redelivery — every buffer size, any number of Senders, every
+      schedule, no assumption on the consumer any more *)
+  Theorem C17_composed_at_most_once : forall (cap0 : nat) (fx : bool) (ls : list clabel),
+    let s := c_sub (crun dec atoi itoa rk c src msg_of beh (cinit cap0 fx) ls) in
+    forall k1 k2 : nat, (k1 < k2)%nat -> (k2 < Sub.next s)%nat ->
+    Sub.c_thr (Sub.copies s k1) = Sub.c_thr (Sub.copies s k2) ->
+    Sub.c_st (Sub.copies s k1) = Nacked
+    /\ accepted_pubs (relay_of dec atoi itoa rk c src msg_of beh s k1) = [].
+  Proof. exact (composed_at_most_once dec atoi itoa rk c src msg_of beh). Qed.
+
+  (** not lost: an acked copy of a relayable message was accepted by the destination, intact *)
+  Theorem C17_composed_acked_was_relayed : forall (cap0 : nat) (fx : bool) (ls : list clabel),
+    let s := c_sub (crun dec atoi itoa rk c src msg_of beh (cinit cap0 fx) ls) in
+    forall k : nat, (k < Sub.next s)%nat -> Sub.c_st (Sub.copies s k) = Acked ->
+    forall (t : N) (m : msg),
+    dest dec c src (gochan_copy (msg_of (Sub.c_pub (Sub.copies s k)))) = Some (t, m) ->
+    accepted_pubs (relay_of dec atoi itoa rk c src msg_of beh s k) = [(t, [relayed atoi itoa rk c m])].
+  Proof. exact (composed_acked_was_relayed dec atoi itoa rk c src msg_of beh). Qed.
+
+  (** the redelivery history recorded by the composed system: no copy handled twice; every entry is
+      the relay's result on a fresh copy of that copy's publication and is the copy's settlement; of
+      two handled copies of one Sender at most one had anything accepted by the destination *)
+  Theorem C17_composed_history : forall (cap0 : nat) (fx : bool) (ls : list clabel),
+    let cs := crun dec atoi itoa rk c src msg_of beh (cinit cap0 fx) ls in
+    NoDup (map fst (c_log cs))
+    /\ (forall k r, In (k, r) (c_log cs) ->
+          (k < Sub.next (c_sub cs))%nat /\ r = relay_of dec atoi itoa rk c src msg_of beh (c_sub cs) k
+          /\ Sub.c_st (Sub.copies (c_sub cs) k) = fst r)
+    /\ (forall k1 r1 k2 r2, In (k1, r1) (c_log cs) -> In (k2, r2) (c_log cs) -> k1 <> k2 ->
+          Sub.c_thr (Sub.copies (c_sub cs) k1) = Sub.c_thr (Sub.copies (c_sub cs) k2) ->
+          accepted_pubs r1 = [] \/ accepted_pubs r2 = []).
+  Proof. exact (composed_log_sound dec atoi itoa rk c src msg_of beh). Qed.
+
+  (** the relay never blocks the subscription: a received, not yet handled copy can be handled *)
+  Theorem C17_composed_handle_enabled : forall (cs : cstate) (k : Sub.cid),
+    Sub.c_recv (Sub.copies (c_sub cs) k) = true -> handled cs k = false ->
+    exists cs', cstep dec atoi itoa rk c src msg_of beh cs (CHandle k) = Some cs' /\ handled cs' k = true.
+  Proof. exact (composed_handle_enabled dec atoi itoa rk c src msg_of beh). Qed.
+End C17_composed.
+
+Section C17_json.
+  (** the interning table of the harness: a bijection between string ids and byte strings *)
+  Variable str_of : N -> list N.
+  Variable id_of : list N -> N.
+  Variable unframe : list N -> option (list (list N * list N)).   (* C16's one oracle: object framing *)
+
+  (** the codec premise of the C17 envelope theorems is a THEOREM for the JSON codec of Value/Json.v
+      (string escaping, base64, field mapping written out), for envelopes of valid UTF-8 strings with
+      unique keys, under C16's single assumption [framing_ok] (inside [json_ok]) *)
+  Theorem C17_json_codec_ok :
+    (forall n, id_of (str_of n) = n) -> (forall s, str_of (id_of s) = s) ->
+    forall e : envelope, json_ok str_of unframe e ->
+    codec_ok_on (json_enc str_of id_of) (json_dec str_of id_of unframe) san_id e.
+  Proof. exact (json_codec_ok str_of id_of unframe). Qed.
+
+  (** C17_envelope_roundtrip on the real wire format: exact restoration *)
+  Theorem C17_envelope_roundtrip_json :
+    (forall n, id_of (str_of n) = n) -> (forall s, str_of (id_of s) = s) ->
+    forall (t : N) (m : msg) (p : N) (em : msg),
+    json_ok str_of unframe (mk_env t m) ->
+    wrap (json_enc str_of id_of) t m = Some p -> payload em = p ->
+    unwrap (json_dec str_of id_of unframe) em = Some (t, m).
+  Proof. exact (json_envelope_roundtrip str_of id_of unframe). Qed.
+
+  (** C17_forwarder_end_to_end on the real wire format *)
+  Theorem C17_forwarder_end_to_end_json :
+    (forall n, id_of (str_of n) = n) -> (forall s, str_of (id_of s) = s) ->
+    forall (atoi : N -> option Z) (itoa : Z -> N) (rk dflt cfg t : N) (ms : list msg) (ft : N) (ps : list N) (ab : bool),
+    (forall m, In m ms -> json_ok str_of unframe (mk_env t m)) ->
+    fpub_publish (json_enc str_of id_of) dflt cfg t ms = Some (ft, ps) ->
+    ft = eff_topic dflt cfg
+    /\ Forall2 (fun m p => forall src em cd pb, payload em = p ->
+         let r := run (json_dec str_of id_of unframe) atoi itoa rk (CForwarder ab) (Inp src em cd pb) in
+         pubs (snd r) = [(t, [m], Unsettled)] /\ (fst r = Acked <-> pb = PubAccept)) ms ps.
+  Proof. exact (json_forward_end_to_end str_of id_of unframe). Qed.
+
+  (** C17_forwarder_non_utf8_refuted restated through C16_json_escape_not_injective_refuted: on
+      the real wire format two different messages (UUIDs that are not valid UTF-8) get the SAME
+      envelope, so no decoder whatsoever restores both — the known finding, without any oracle *)
+  Theorem C17_forwarder_non_utf8_json_refuted :
+    (forall s, str_of (id_of s) = s) -> str_of 0 = [] ->
+    exists t m1 m2 p, m1 <> m2
+      /\ wrap (json_enc str_of id_of) t m1 = Some p /\ wrap (json_enc str_of id_of) t m2 = Some p
+      /\ forall (dec : N -> option envelope) em, payload em = p ->
+           ~ (unwrap dec em = Some (t, m1) /\ unwrap dec em = Some (t, m2)).
+  Proof. exact (json_not_injective str_of id_of). Qed.
+End C17_json.
+
+(** glued to Layer B (GoChannel/Reg.v: all schedules of Publish / Subscribe / cancel / Close) as in
+    GoChannel/ReplayCompose.v — the Senders Layer B starts for subscription x are the LSpawn labels of
+    the composed run.  Layer B never starts a second Sender for the same (publication, subscription), so:
+    per PUBLICATION the relay's destination accepts at most once; a later copy of the same published
+    message exists only after the relay nacked every earlier one *)
+From WM Require Import Relay.ConsumerLayerB.
+From WM Require GoChannel.Reg GoChannel.ReplayCompose GoChannel.MonitorSound.
+Theorem C17_composed_at_most_once_per_publication :
+  forall (dec : N -> option envelope) (atoi : N -> option Z) (itoa : Z -> N) (rk : N) (c : comp) (src : N)
+         (msg_of : Sub.pubid -> msg) (beh : Sub.cid -> attempt)
+         (pers blk fxb : bool) (gls : list Reg.glabel) (x : Reg.subid) (cap0 : nat) (fx : bool) (ls : list clabel),
+  let g := Reg.grun (Reg.ginit pers blk fxb) gls in
+  let L := cproj dec atoi itoa rk c src msg_of beh (cinit cap0 fx) ls in
+  let s := c_sub (crun dec atoi itoa rk c src msg_of beh (cinit cap0 fx) ls) in
+  Permutation.Permutation (MonitorSound.spawn_pubs L) (ReplayCompose.sender_pubs g x) ->
+  forall k1 k2 : nat, (k1 < k2)%nat -> (k2 < Sub.next s)%nat ->
+  Sub.c_pub (Sub.copies s k1) = Sub.c_pub (Sub.copies s k2) ->
+  Sub.c_st (Sub.copies s k1) = Nacked
+  /\ accepted_pubs (relay_of dec atoi itoa rk c src msg_of beh s k1) = [].
+Proof. exact composed_at_most_once_per_publication. Qed.
+
+Print Assumptions C17_composed_is_layer_a_run.
+Print Assumptions C17_composed_relay_consumer.
+Print Assumptions C17_composed_at_most_once.
+Print Assumptions C17_composed_acked_was_relayed.
+Print Assumptions C17_composed_history.
+Print Assumptions C17_composed_handle_enabled.
+Print Assumptions C17_json_codec_ok.
+Print Assumptions C17_envelope_roundtrip_json.
+Print Assumptions C17_forwarder_end_to_end_json.
+Print Assumptions C17_forwarder_non_utf8_json_refuted.
+Print Assumptions C17_composed_at_most_once_per_publication.
+
+(** a computed run of the composed system: the requeuer nacks copy 0 (destination error), Layer A
+    sends copy 1 of the same publication, the requeuer relays it (counter 41 -> 42) and acks; the
+    environment's own LAck and a second CHandle are not steps *)
+Example C17_composed_witness :
+  map fst (c_log w_final) = [0; 1]%nat
+  /\ map (fun x => fst (snd x)) (c_log w_final) = [Nacked; Acked]
+  /\ flat_map (fun x => accepted_pubs (snd x)) (c_log w_final) = [(7%N, [Msg 2 3 (Some [(w_rk, w_itoa 42)])])]
+  /\ map (fun k => Sub.c_st (Sub.copies (c_sub w_final) k)) [0; 1]%nat = [Nacked; Acked]
+  /\ Sub.thr (c_sub w_final) 0%nat = Sub.SDone 5%nat /\ Sub.next (c_sub w_final) = 2%nat.
+Proof. exact composed_witness. Qed.
